@@ -23,6 +23,8 @@ fn main() {
     match cmd.as_str() {
         "epoch" => drivers::epoch::run(&mut rng, thorough, &mut t),
         "farm" => drivers::farm::run(&mut rng, thorough, &mut t),
+        "pool" => drivers::pool::run(&mut rng, thorough, &mut t),
+        "stable" => drivers::pool::run_stable(&mut rng, thorough, &mut t),
         "farm_replay" => drivers::farm_replay::run(
             &arg("--behaviours").expect("--behaviours"),
             arg("--rate").map(|s| s.parse().unwrap()).unwrap_or(1000),
